@@ -1,0 +1,17 @@
+//go:build verif
+
+package lwk
+
+import "github.com/elementsproject/peerswap/electrum"
+
+// Verification hook (build tag verif, add-only): an LWKRpcWallet over the lwk
+// JSON-RPC endpoint of the configuration and an injected (fake) electrum
+// client, without the start-up dialogue of NewLWKRpcWallet, so that
+// CreateAndBroadcastTransaction can be observed without lwk and electrs.
+func VerifNewWallet(c *Conf, electrumClient electrum.RPC) *LWKRpcWallet {
+	return &LWKRpcWallet{
+		c:              c,
+		lwkClient:      NewLwk(c.GetLWKEndpoint()),
+		electrumClient: electrumClient,
+	}
+}
